@@ -574,11 +574,21 @@ pub fn run(scenario: u32, choices: &[u8], _strict: bool) -> Outcome {
         }
       }
     };
+    // for a remote reader: Some(true) = it may only relay, Some(false) = it may read
+    let mut relay_only_expected: Option<bool> = None;
     let permitted = match kind {
       Kind::Writer => decide(true),
       // a remote reader that may not subscribe may still be matched for relaying; no relay
       // criteria are generated, so the grant's default decides that
-      Kind::Reader if remote => decide(false) || grant.default_allow,
+      Kind::Reader if remote => {
+        let may_read = decide(false);
+        if may_read || unprotected {
+          relay_only_expected = Some(false);
+        } else if grant.default_allow {
+          relay_only_expected = Some(true);
+        }
+        may_read || grant.default_allow
+      }
       Kind::Reader => decide(false),
       Kind::Topic => {
         let w = decide(true);
@@ -599,6 +609,7 @@ pub fn run(scenario: u32, choices: &[u8], _strict: bool) -> Outcome {
       nontrivial = true;
     }
     // ---- the plugin
+    let mut relay_only_got: Option<bool> = None;
     let got = if remote {
       let h = remote_handle.unwrap();
       let guid_w = crate::GUID::new(rig::node_prefix(60), rig::user_writer_eid(1, true));
@@ -608,7 +619,10 @@ pub fn run(scenario: u32, choices: &[u8], _strict: bool) -> Outcome {
         Kind::Writer => ac.check_remote_datawriter(h, domain, &PublicationBuiltinTopicDataSecure::from(discovery_rig::writer_data(guid_w, topic, &rig::reliable_qos(), vec![]))),
         Kind::Reader => ac
           .check_remote_datareader(h, domain, &SubscriptionBuiltinTopicDataSecure::from(discovery_rig::reader_data(guid_r, topic, &rig::reliable_qos(), vec![])))
-          .map(|(ok, _relay_only)| ok),
+          .map(|(ok, relay_only)| {
+            relay_only_got = Some(relay_only);
+            ok
+          }),
         Kind::Topic => ac.check_remote_topic(h, domain, &TopicBuiltinTopicData::new(None, topic.to_string(), "T".to_string(), &plain_qos)),
       }
     } else {
@@ -639,6 +653,22 @@ pub fn run(scenario: u32, choices: &[u8], _strict: bool) -> Outcome {
         ),
       );
       return o;
+    }
+    // matched: as a full reader or only as a relay? A reader that may read must not be demoted
+    // to a relay (it gets no payload keys then), one that may only relay must not be promoted
+    if let (true, Some(want), Some(have)) = (got, relay_only_expected, relay_only_got) {
+      if want != have {
+        o.violate(
+          if have { "c18.denied-wrongly" } else { "c18.granted-wrongly" },
+          if have { "Reader:demoted-to-relay-only" } else { "Reader:relay-only-promoted-to-reader" },
+          format!(
+            "query {qn}: match remote Reader on topic {topic:?} in domain {domain}: plugin says relay_only={have}, documents say {} (governance topic rule {trule:?}; grant {grant:?})",
+            if want { "it may only relay (subscribe denied, relay falls to the default ALLOW)" } else { "it may read" }
+          ),
+        );
+        return o;
+      }
+      o.label(if have { "remote-reader-relay-only" } else { "remote-reader-full" });
     }
     o.label(if got { "allowed" } else { "denied" });
   }
